@@ -19,7 +19,6 @@ import (
 	"github.com/relex/gotils/logger"
 	"github.com/relex/gotils/promexporter/promreg"
 	"github.com/relex/slog-agent/base"
-	"github.com/relex/slog-agent/base/bconfig"
 	"github.com/relex/slog-agent/base/bsupport"
 )
 
@@ -349,5 +348,3 @@ func collect(n int, caps []capEntry) result {
 	}
 	return res
 }
-
-var _ = bconfig.PipelineArgs{}
